@@ -102,9 +102,9 @@ def run(rep, tier, seed, replay=None):
                 out.append((f"alloc-live:{fam}", f"{peak} bytes live at once (> 64 MiB)"))
         if fam is not None and not out:
             d = netprops.FAMILIES[fam]
-            if "retries" in d and "send_units" in d:
+            if "send_units" in d:
                 try:
-                    r = int(case.split(" ")[2 + d["retries"]])
+                    r = int(case.split(" ")[2 + d["retries"]]) if "retries" in d else 0  # no retries argument: never retried
                 except ValueError:
                     r = 0
                 tr = vlib.trace_of(impl)
